@@ -126,7 +126,6 @@ type c20Task struct {
 	res   *resource
 	hi    int
 	v     variant
-	vi    int
 	rows  []*row
 	forms []*F
 }
@@ -198,8 +197,12 @@ func (c *c20Run) memoEval(ctx context.Context, s *site, res *resource, v variant
 	}
 	vd := evaluate(ctx, s, res, v, rows, f)
 	c.st.evaluations.Add(1)
-	if vd.Kind != "engine" {
+	switch {
+	case vd.Kind == "engine":
+	case vd.bad():
 		c.st.memo.Store(key, vd)
+	default:
+		c.st.memo.Store(key, verdict{nonTrivial: vd.nonTrivial}) // passing: the entity lists are not needed again
 	}
 	return vd
 }
@@ -325,7 +328,7 @@ func runC20() int {
 				c.st.perRes[res.Name].Atoms = len(as.all)
 				c.st.perRes[res.Name].Formulas = len(fs)
 			}
-			for vi, v := range res.variants(b, c.thorough) {
+			for _, v := range res.variants(b, c.thorough) {
 				if hi == 0 {
 					variantNames[res.Name] = append(variantNames[res.Name], v.Name)
 				}
@@ -335,7 +338,7 @@ func runC20() int {
 					if to > len(fs) {
 						to = len(fs)
 					}
-					tasks = append(tasks, &c20Task{res: res, hi: hi, v: v, vi: vi, rows: rows, forms: fs[from:to]})
+					tasks = append(tasks, &c20Task{res: res, hi: hi, v: v, rows: rows, forms: fs[from:to]})
 				}
 			}
 		}
